@@ -17,7 +17,7 @@ ASSUMPTIONS = ['a run(until=event) stop is only placed on events that succeed in
                'programs in which an exception escapes step() are split with step() only',
                'canonical trace = all recorded observations and processings, minus the stop sentinels, minus action '
                'and step numbers']
-PROBES = ['network_scenario', 'stop_at_instant_with_due_normal_event', 'until_event_gains_waiter_after_run_began',
+PROBES = ['network_scenario', 'pipeline_scenario', 'stop_at_instant_with_due_normal_event', 'until_event_gains_waiter_after_run_began',
           'until_event_already_processed', 'nasty_stop_time', 'illegal_stop_refused', 'step_split', 'until_event_stop']
 
 
@@ -25,8 +25,23 @@ NAMES = ['gold', 'silver', 'bronze', 'lead', 'tin', 'zinc']
 
 
 def gen_net(rng, tier):
-    """A network scenario: one scheduler under a bursty workload, optionally with string class ids (hash order!)."""
+    """A network scenario: one scheduler under a bursty workload, optionally with string class ids (hash order!),
+    or a whole generated pipeline (the compositions of C08)."""
     from .. import sched
+    if rng.random() < 0.35:
+        from . import c08
+        pipe = c08.gen(rng, tier)
+        ts = sorted(set([x[0] for s_ in pipe['sources'] if s_.get('kind') == 'inj' for x in s_['workload']] + [1.0, 2.0]))
+        plan = []
+        for _ in range(rng.choice([1, 2, 3, 5])):
+            if rng.random() < 0.6:
+                plan.append(['until', rng.choice([t for t in ts if t > 0] or [1.0]) + rng.choice([0, 0, 0.0625, 0.5])])
+            else:
+                plan.append(['steps', rng.randint(1, 9)])
+        nums = sorted(p[1] for p in plan if p[0] == 'until')
+        plan = [['until', nums.pop(0)] if p[0] == 'until' else p for p in plan]
+        plan.append(['run'])
+        return {'engine': 'N', 'pipe': pipe, 'drive': plan}
     kind = rng.choice(['DRR', 'DRR', 'WFQ', 'WRR', None, None])
     net = sched.gen_sched_case(rng, tier, kind=kind, monitor=False, many_to_one=False,
                                static=rng.random() < 0.3)
@@ -50,16 +65,49 @@ def gen_net(rng, tier):
     return {'engine': 'N', 'net': net, 'drive': plan}
 
 
+def _run_until(env, t):
+    """run(until=t); a finite scripted source that ends (ScriptDone) does not end the run."""
+    from ..net import ScriptDone
+    from ..tap import EmptySchedule, StopSimulation
+    try:
+        env.run(until=t)
+        return
+    except ScriptDone:
+        pass
+    while True:
+        try:
+            env.step()
+        except StopSimulation:
+            return
+        except EmptySchedule:
+            return
+        except ScriptDone:
+            continue
+
+
 def run_net(case):
     from .. import sched
-    from ..net import NetWorld, InTap, OutTap, Recorder, start_injector
-    net = case['net']
+    from ..net import NetWorld, InTap, OutTap, Recorder, start_injector, ScriptDone
+    net = case.get('net')
+    pipe = case.get('pipe')
 
     def execute(plan):
         w = NetWorld()
-        s, f2c = sched.build(w, net)
-        s.out = OutTap(w, 's', s, Recorder(w, 'sink'))
-        start_injector(w, InTap(w, 's', s), [tuple(x) for x in net.get('workload', [])])
+        restore = None
+        if pipe is not None:
+            from . import c08
+            _b, _g, restore = c08.build_pipeline(w, pipe)
+        else:
+            s, f2c = sched.build(w, net)
+            s.out = OutTap(w, 's', s, Recorder(w, 'sink'))
+            start_injector(w, InTap(w, 's', s), [tuple(x) for x in net.get('workload', [])])
+        try:
+            return _drive_net(w, plan)
+        finally:
+            if restore is not None:
+                restore()
+
+    def _drive_net(w, plan):
         env = w.env
         stops = 0
         steps = 0
@@ -72,6 +120,8 @@ def run_net(case):
                 for _ in range(it[1]):
                     try:
                         env.step()
+                        steps += 1
+                    except ScriptDone:
                         steps += 1
                     except Exception:
                         break
@@ -86,7 +136,7 @@ def run_net(case):
                     continue
                 stops += 1
                 try:
-                    env.run(until=t)
+                    _run_until(env, t)
                     if env.now != t:
                         viol.append(('C03.2', 'run(until=%r) returned with now == %r' % (t, env.now)))
                 except Exception as e:
@@ -96,12 +146,21 @@ def run_net(case):
     w, stops, steps, viol = execute(list(case.get('drive', [])) + [['run']])
 
     def cn(log):
-        return [(r[0],) + tuple(r[2:]) for r in log]
+        out = []
+        for r in log:
+            if r[0] == 'X':
+                out.append(('X', r[3]))          # without the kernel step number (stops add steps)
+            elif r[0] == 'ERR':
+                out.append(('ERR', r[2], r[4]))
+            else:
+                out.append((r[0],) + tuple(r[2:]))
+        return out
     d = first_diff(cn(ref.log), cn(w.log))
     if d is not None:
         viol.append(('C03.4', 'network scenario (%s): split execution diverges from the uninterrupted run at record %d: '
-                     'uninterrupted %r, split %r' % ((net.get('kind'),) + d)))
-    return {'viol': viol, 'digest': digest_of(w.log), 'nontrivial': stops >= 2, 'stats': {'network_scenario': 1},
+                     'uninterrupted %r, split %r' % (((net or {}).get('kind', 'pipeline'),) + d)))
+    return {'viol': viol, 'digest': digest_of(w.log), 'nontrivial': stops >= 2,
+            'stats': {'network_scenario': 1, 'pipeline_scenario': 1 if pipe is not None else 0},
             'simtime': float(w.env.now), 'steps': steps}
 
 
